@@ -42,6 +42,10 @@ pub enum Act {
     /// the connection between C and S drops (messages in flight are lost, the attacker keeps what
     /// it saw) and C dials again: same peer index at C, a new one at S
     ReconnectCS,
+    /// C's dial to S succeeds a second time on the same peer index without the first connection
+    /// having been reported closed (two dials both succeed, or a replaced socket whose close is
+    /// reported late); S sees one more accepted connection
+    ConnectAgain,
     /// replay observed message #k to a target
     Replay(Target, u8),
     /// send a challenge carrying observed challenge value #j (255 = fresh)
@@ -234,6 +238,7 @@ pub fn enabled(sim: &Sim, thorough: bool) -> Vec<Act> {
     }
     if sim.reconnects == 0 {
         v.push(Act::ReconnectCS);
+        v.push(Act::ConnectAgain);
     }
     if sim.purges == 0 {
         v.push(Act::Purge);
@@ -340,6 +345,31 @@ pub fn apply(sim: &mut Sim, a: Act, rep: &mut Report, hist: &[Act]) -> bool {
             }
             collect(sim);
             rep.outcome("reconnect:done");
+            return true;
+        }
+        Act::ConnectAgain => {
+            sim.reconnects += 1;
+            sim.to_c.clear();
+            sim.to_s.clear();
+            sim.issued.remove(&(1, SC));
+            sim.cs = 3;
+            let r3 = sim.c.net(NetworkEvent::PeerConnectionResult { result: Ok((SC, None)) });
+            let r4 = sim.s.net(NetworkEvent::PeerConnectionResult { result: Ok((3, None)) });
+            if !r3.is_done() || !r4.is_done() {
+                rep.violate("handler-abort/second-connection", format!("{} / {}", r3.label(), r4.label()), ctx.clone());
+            }
+            collect(sim);
+            let (_s_after, _addr_after, c_after) = tables(sim);
+            // nothing has been signed on the new connection yet
+            if let Some(p) = c_after.iter().find(|p| p.0 == SC) {
+                if p.1 == "Connected" {
+                    rep.violate("connected-before-any-handshake-on-the-new-connection", format!("C: a second connection on index {} counts as connected under {:?} although nothing was signed on it ({:?})", SC, p.2.map(|k| crate::seams::key_name(&k)), hist), ctx.clone());
+                } else {
+                    rep.outcome("second-connection:has-to-authenticate-again");
+                }
+            }
+            final_invariants(sim, rep, hist, &ctx);
+            rep.outcome("connect-again:done");
             return true;
         }
         _ => match build(sim, &a) {
